@@ -6,14 +6,19 @@
    hook arguments and return the same point and outcome kind, and the caller's
    start vector must be unchanged. *)
 From Coq Require Import ZArith List Bool Floats.
-From ADV Require Import Base.Num Base.Corr C07.Model.
+From ADV Require Import Base.Num Base.Corr C07.Model C07.ModelNewton.
 Import ListNotations.
 Open Scope Z_scope.
 
 Inductive lev :=
 | LEval (x : list float) (seeds : list (list float)) (err : bool) (y : float) (g : list float)
 | LHook (x g : list float) (hasy : bool) (y : float) (step : list float) (stop : bool)
-| LCons (x : list float) (ok : bool).
+| LCons (x : list float) (ok : bool)
+(* newton (round 2): vector-valued answers (y, J), hook (x, J, y), and the answer of
+   getDirection: st = 0 direction t computed, 1 error returned, 2 panic inside the solver *)
+| LEvalV (x : list float) (seeds : list (list float)) (err : bool) (y : list float) (J : list (list float))
+| LHookV (x : list float) (J : list (list float)) (y : list float) (stop : bool)
+| LDir (st : Z) (t : list float).
 
 Inductive routine :=
 | RRprop (p : rp_params (A := float))
@@ -21,7 +26,8 @@ Inductive routine :=
 | RGD (p : gd_params (A := float))
 | RLS (hook cons : bool) (alpha1 : float) (maxEval : Z)
 | RBfgs (p : bf_params (A := float))
-| RAdam (p : ad_params (A := float)).
+| RAdam (p : ad_params (A := float))
+| RNewton (crit : bool) (p : nw_params (A := float)).   (* crit: RunCrit (y = gradient, J = Hessian) *)
 
 Record case := mkCase {
   c_routine : routine;
@@ -106,15 +112,77 @@ Definition run_case (c : case) : outcome (A := float) * trace (A := float) :=
       let r := line_search_run NumF KF F HK CS hk cs fuel a1 me in (ls_to_outcome (fst r), snd r)
   | RBfgs p => bfgs NumF KF F HK CS p fuel (c_x0 c)
   | RAdam p => adam_dense NumF F HK CS p fuel (c_x0 c)
+  | RNewton _ _ => (OutOfFuel, [])     (* replayed by run_newton / check_newton below *)
   end.
 
+(* ---- newton (round 2): c_kind 0 nil error, 1 hook stop, 3 panic, 20 invalid initial
+   value, 21 objective error, 22 NaN, 23 getDirection error, 24 line search failed *)
+Section ReplayNewton.
+Variable tbl : list lev.
+Definition oNF (k : nat) (x : list float) : nw_answer (A := float) :=
+  match nth_error tbl k with Some (LEvalV _ _ e y J) => mkNwAns e y J | _ => mkNwAns true [] [] end.
+Definition oND (k : nat) (mode : Z) (y : list float) (J : list (list float)) : dir_ans (A := float) :=
+  match nth_error tbl k with
+  | Some (LDir st t) => if st =? 0 then DirOk t else if st =? 1 then DirErr else DirPanic
+  | _ => DirErr
+  end.
+Definition oNHK (k : nat) (h : nw_hookargs (A := float)) : bool :=
+  match nth_error tbl k with Some (LHookV _ _ _ b) => b | _ => true end.
+End ReplayNewton.
+
+Definition mfeqb (a b : list (list float)) : bool := list_eqb vfeqb a b.
+
+Definition nev_match (e : nw_event (A := float)) (l : lev) : bool :=
+  match e, l with
+  | NvEval x a, LEvalV x' sd _ _ _ =>
+      vfeqb x x' && list_eqb (list_eqb fnumeq) (ident NumF (length x)) sd
+  | NvHook h b, LHookV x J y b' =>
+      vfeqb (nh_x h) x && mfeqb (nh_J h) J && vfeqb (nh_y h) y && Bool.eqb b b'
+  | NvDir _ _ _ _, LDir _ _ => true
+  | NvCons x b, LCons x' b' => vfeqb x x' && Bool.eqb b b'
+  | _, _ => false
+  end.
+
+Definition nw_kind (o : nw_out (A := float)) : Z :=
+  match o with
+  | NwConv _ | NwCap _ => 0 | NwHook _ => 1 | NwPanic => 3 | NwFuel => 99
+  | NwErr NEInit _ => 20 | NwErr NEObj _ => 21 | NwErr NENaN _ => 22
+  | NwErr NEDir _ => 23 | NwErr NELineSearch _ => 24
+  end.
+Definition nw_point (o : nw_out (A := float)) : list float :=
+  match o with NwConv x | NwCap x | NwHook x | NwErr _ x => x | _ => [] end.
+
+Definition run_newton (c : case) (p : nw_params (A := float)) : nw_out (A := float) * nw_trace (A := float) :=
+  let tbl := c_table c in
+  newton_root NumF (oNF tbl) (oND tbl) (oNHK tbl) (oCS tbl) p (length tbl + 5)%nat (c_x0 c).
+
+Definition check_newton (c : case) (p : nw_params (A := float)) : bool :=
+  let r := run_newton c p in
+  let o := fst r in
+  list_match nev_match (rev (snd r)) (c_table c)
+  && (nw_kind o =? c_kind c)
+  && ((c_kind c =? 3) || vfeqb (nw_point o) (c_point c))
+  && vfeqb (c_x0 c) (c_x0_after c).
+
 Definition check (c : case) : bool :=
+  match c_routine c with
+  | RNewton _ p => check_newton c p
+  | _ =>
   let r := run_case c in
   let o := fst r in
   list_match ev_match (rev (snd r)) (c_table c)
   && (out_kind o =? c_kind c)
   && ((c_kind c =? 3) || vfeqb (out_point o) (c_point c))
-  && vfeqb (c_x0 c) (c_x0_after c).
+  && vfeqb (c_x0 c) (c_x0_after c)
+  end.
+
+Definition diverge_newton (c : case) : option nat * Z * list float :=
+  match c_routine c with
+  | RNewton _ p =>
+      let r := run_newton c p in
+      (first_mis nev_match 0 (rev (snd r)) (c_table c), nw_kind (fst r), nw_point (fst r))
+  | _ => (None, 0, [])
+  end.
 
 Definition mism (cs : list case) : list nat := mismatches check cs.
 
